@@ -68,6 +68,27 @@ Proof.
   vm_compute. repeat split; reflexivity.
 Qed.
 
+(* Each launch uses a fresh listener address, and the session's server is the one the client
+   talks to: in every reachable state the addresses given to the launched servers are pairwise
+   distinct (one per launch), and the connection, when it exists, was made to the address of the
+   most recently launched server - never to the address of a server of an earlier session (which
+   may still be shutting down) or of an abandoned launch. *)
+Theorem C16_fresh_address : forall c o scripts sched,
+  let s := run c o sched (init scripts) in
+  NoDup (srv_addrs (sh s)) /\ length (srv_addrs (sh s)) = launches (sh s) /\
+  (forall k, conn (sh s) = Some k -> exists r, srv_addrs (sh s) = c_addr k :: r).
+Proof. intros c o scripts sched. exact (fresh_addresses c o scripts sched). Qed.
+Print Assumptions C16_fresh_address.
+
+(* Non-vacuity: call, close, call, with the second launch abandoned (timeout) and retried:
+   three servers on three addresses, the connection goes to the newest. *)
+Example C16_fresh_address_example :
+  let o := mk_oracle [] [COk; CTimeout] in
+  let s := run cfg_fixed o (repeat (Cl 0) 90) (init [[Call; Close; Call; Call]]) in
+  (srv_addrs (sh s), launches (sh s), option_map c_addr (conn (sh s)), t_answers (clients s 0))
+  = ([2; 1; 0], 3, Some 2, 2).
+Proof. vm_compute. reflexivity. Qed.
+
 (* F3 on the pinned tree: run() tests self.prepare_thread and reads it again to join it; the
    starter clears it in between (2 threads, 19 scheduled lines) -> the caller unwinds run() with
    AttributeError although the launch succeeded. *)
@@ -132,7 +153,8 @@ Print Assumptions C16_step_bound.
 (* close() then a call launches exactly one new server: from ANY state in which the session is
    up, nobody is inside prepare()/run() and no starter is registered, a thread that runs
    close() and then a call (22 lines, alone) ends the session (epoch + 1), launches exactly one
-   server, leaves a fresh connection and gets its reply. *)
+   server on a NEW listener address (naddr: the next arbitrary_address()), leaves a fresh
+   connection to that address and gets its reply. *)
 Theorem C16_close_then_call : forall c o s i rest k,
   fix_f2 c = true -> fix_f3 c = true ->
   t_script (clients s i) = Close :: Call :: rest -> t_pc (clients s i) = KTry ->
@@ -141,7 +163,7 @@ Theorem C16_close_then_call : forall c o s i rest k,
   o_popen o (popens (sh s)) = true -> o_conn o (attempts (sh s)) = COk ->
   let s' := run c o (repeat (Cl i) 22) s in
   launches (sh s') = S (launches (sh s)) /\ epoch (sh s') = S (epoch (sh s)) /\
-  conn (sh s') = Some fresh_conn /\ lock (sh s') = None /\ handle (sh s') = None /\
+  conn (sh s') = Some (fresh_conn (naddr (sh s))) /\ lock (sh s') = None /\ handle (sh s') = None /\
   t_script (clients s' i) = rest /\ t_exns (clients s' i) = t_exns (clients s i) /\
   t_answers (clients s' i) = S (t_answers (clients s i)).
 Proof. exact close_then_call. Qed.
@@ -155,7 +177,7 @@ Example C16_close_then_call_applies :
                 Cl 0; Cl 2; Cl 0; Cl 2; Cl 0; Cl 2; Cl 2; Cl 2; Cl 2; Cl 2] in
   let s := run cfg_fixed oracle_ok sched (init [[Call; Close; Call]; [Prepare]; [Call]]) in
   t_script (clients s 0) = [Close; Call] /\ t_pc (clients s 0) = KTry /\
-  lock (sh s) = None /\ handle (sh s) = None /\ conn (sh s) = Some fresh_conn /\
+  lock (sh s) = None /\ handle (sh s) = None /\ conn (sh s) = Some (fresh_conn 0) /\
   launches (sh s) = 1 /\ t_answers (clients s 0) = 1 /\ t_answers (clients s 2) = 1 /\
   t_exns (clients s 0) = [] /\ t_exns (clients s 2) = [].
 Proof. vm_compute. repeat split; reflexivity. Qed.
